@@ -223,8 +223,9 @@ func (p *bprover) findLoopArg(l *natLoop) (loopArg, []string) {
 				tr := typeRange(ph.Type())
 				if !is64(ph.Type()) || isUnsigned(ph.Type()) {
 					// stays while ph >= -rest; wrap below the type minimum
-					if !p.proveAtLoopEntry(l, rest.addc(tr.lo+(-maxStep)-1).addc(1)) && !(tr.hasLo && func() bool {
-						// ph >= -rest >= lo - maxStep ... conservative: require -rest >= lo + |step|
+					// the loop is left when ph < -rest; the last decrement starts from
+					// ph >= -rest, so it stays representable if -rest >= lo + |step|
+					if !(tr.hasLo && func() bool {
 						n, _ := rest.scale(-1)
 						return p.proveAtLoopEntry(l, n.addc(-tr.lo+maxStep))
 					}()) {
